@@ -163,9 +163,23 @@ func (w *world) add(it item) {
 		}
 	}
 	if !w.noSample {
-		it.St = w.cur.Sm.Current()
+		it.St = sampleState(w.cur)
 	}
 	w.items = append(w.items, it)
+}
+
+// sampleState reads the FSM state without ever blocking the caller for long: FSM.Current takes
+// the FSM's read lock, which is not granted while a writer (a forced SetState) waits behind a
+// running event - "" then means "not observable at this instant".
+func sampleState(env *environment.Environment) string {
+	ch := make(chan string, 1)
+	go func() { ch <- env.Sm.Current() }()
+	select {
+	case s := <-ch:
+		return s
+	case <-time.After(3 * time.Millisecond):
+		return ""
+	}
 }
 
 func (w *world) mark() int { w.mu.Lock(); defer w.mu.Unlock(); return len(w.items) }
